@@ -56,6 +56,16 @@ type multiArgs struct {
 	Off      bool        `json:"off,omitempty"`
 	Model    bool        `json:"model,omitempty"` // second entry point: loader.LoadModelWithContext (the dictionary), not LoadWithContext
 	Shared   *multiShared `json:"shared,omitempty"` // round 7: ONE file reached several times in one load, along different routes
+	Twice    *multiTwice  `json:"twice,omitempty"`  // round 7: ONE file included several times in one load
+}
+
+// one file (a library of services) listed by several `include` sections of one load: the main file's, the hub's, both,
+// or twice in one list.  The definitions are identical, so the project is valid; the paths are anchored on the file's directory.
+type multiTwice struct {
+	Dir    string   `json:"dir"` // relative to the project directory
+	Attr   string   `json:"attr"`
+	S      string   `json:"s"`
+	Routes []string `json:"routes"` // main | hub, in order
 }
 
 // round 7 — the SAME file is the `extends.file` target of several services of one load, which live in files of
@@ -296,6 +306,42 @@ func buildMulti(a multiArgs) (*multiScenario, string) {
 			put(rel, map[string]any{"services": svcs})
 		}
 	}
+	if tw := a.Twice; tw != nil {
+		if a.Off {
+			return nil, "twice: without resolution every route spells the directory its own way"
+		}
+		if tw.Attr == "label_file" || (tw.Attr == "volumes.short" && !shortOK(tw.S)) {
+			return nil, "twice: attribute not usable"
+		}
+		n := len(sc.obs)
+		svc, top, kind := carrierN(tw.Attr, tw.S, n)
+		name := tw.Attr
+		if name == "volumes.short" {
+			name = "volumes.bind.source"
+		}
+		put(j(proj, tw.Dir, "lib.yaml"), merge(map[string]any{"services": map[string]any{fmt.Sprintf("svc%d", n): svc}}, top))
+		var steps []map[string]any
+		for _, rt := range tw.Routes {
+			switch rt {
+			case "main":
+				r := j(tw.Dir, "lib.yaml")
+				mainIncl = append(mainIncl, r)
+				steps = []map[string]any{{"incl": r}}
+			case "hub":
+				r, err := filepath.Rel(j("/r", proj, a.Hub), j("/r", proj, tw.Dir, "lib.yaml"))
+				if err != nil {
+					return nil, "twice: no relative reference"
+				}
+				hubIncl, needHub = append(hubIncl, r), true
+				if steps == nil {
+					steps = []map[string]any{{"incl": hubRef}, {"incl": r}}
+				}
+			default:
+				return nil, "unknown route"
+			}
+		}
+		sc.obs = append(sc.obs, multiObs{c12Obs: c12Obs{Name: name, Kind: kind, S: tw.S, Base: a.Wd + "/" + tw.Dir, RelBase: tw.Dir}, Via: "twice", Steps: steps})
+	}
 	if needHub {
 		if seen[j(a.Hub)] {
 			return nil, "hub shares a directory with a unit"
@@ -441,6 +487,10 @@ func realMulti(raw json.RawMessage) any {
 			i := len(a.Units) + k
 			sc.obs[i].Got, sc.obs[i].Frame = c12ExtractN(tree, sh.Attr, i)
 		}
+	}
+	if tw := a.Twice; tw != nil {
+		i := len(sc.obs) - 1
+		sc.obs[i].Got, sc.obs[i].Frame = c12ExtractN(tree, tw.Attr, i)
 	}
 	return map[string]any{"root": root, "home": home, "obs": sc.obs, "dirs": dirs, "wd": details.WorkingDir, "alias": scrub(alias)}
 }
@@ -596,6 +646,9 @@ func multiShape(a multiArgs) string {
 		}
 		l = append(l, s)
 	}
+	if tw := a.Twice; tw != nil {
+		l = append(l, fmt.Sprintf("; file %s/lib.yaml included from [%s]", tw.Dir, strings.Join(tw.Routes, ",")))
+	}
 	return strings.Join(l, ",")
 }
 
@@ -608,6 +661,9 @@ func multiDirOf(a multiArgs, i int) string {
 			return filepath.Join(sh.Dir, sh.Chain)
 		}
 		return sh.Dir
+	}
+	if a.Twice != nil {
+		return a.Twice.Dir
 	}
 	return "?"
 }
@@ -622,6 +678,8 @@ var c12MultiPatterns = [][]string{
 	{"incl", "hub-incl", "ext", "hub-ext"}, {"incl", "hub-ext", "incl"}, {"incl"}, {"ext"}, {"hub-incl"}, {"hub-ext"},
 }
 
+var c12TwiceDirs = []string{"lib", "l/ib", "../libsib"}
+var c12TwiceRoutes = [][]string{{"main", "hub"}, {"hub", "main"}, {"main", "main"}, {"hub", "hub"}, {"main", "hub", "main"}, {"main"}, {"hub"}}
 var c12SharedDirs = []string{"shared", "x/shared", "../sharedsib"}
 var c12SharedPatterns = [][]sharedUser{
 	{{Route: "main"}, {Route: "incl", Dir: "a"}}, {{Route: "incl", Dir: "b/c"}, {Route: "main"}}, {{Route: "main"}, {Route: "main"}},
@@ -684,6 +742,9 @@ func runC12Multi(ctx *core.Ctx) {
 			if sh.Chain != "" {
 				ctx.Count("multi-shared:chain")
 			}
+		}
+		if tw := a.Twice; tw != nil && !a.Off {
+			ctx.Count("multi-twice:" + strings.Join(tw.Routes, "+"))
 		}
 		if a.Model {
 			ctx.Count("multi:entry=LoadModelWithContext")
@@ -753,6 +814,9 @@ func runC12Multi(ctx *core.Ctx) {
 				a.HubFirst = k%2 == 0
 				a.Off = k%5 == 0
 				a.Model = k%7 == 0
+				if k%2 == 0 && !a.Off {
+					a.Twice = &multiTwice{Dir: c12TwiceDirs[k%len(c12TwiceDirs)], Attr: c12MultiAttrs[k%len(c12MultiAttrs)], S: sharedVals[(k/3)%len(sharedVals)], Routes: c12TwiceRoutes[(k/2)%len(c12TwiceRoutes)]}
+				}
 				add(a, "shared")
 			}
 		}
@@ -790,6 +854,9 @@ func runC12Multi(ctx *core.Ctx) {
 			if rng.Intn(4) == 0 {
 				a.Units = nil
 			}
+		}
+		if !a.Off && rng.Intn(3) == 0 {
+			a.Twice = &multiTwice{Dir: c12TwiceDirs[rng.Intn(len(c12TwiceDirs))], Attr: c12MultiAttrs[rng.Intn(len(c12MultiAttrs))], S: sharedVals[rng.Intn(len(sharedVals))], Routes: c12TwiceRoutes[rng.Intn(len(c12TwiceRoutes))]}
 		}
 		add(a, "random")
 	}
